@@ -127,13 +127,6 @@ func LemmaSkipBlanks(s string, i int) {
 	LemmaSkipBlanks(s, i+1)
 }
 
-//@ extern bytes.Repeat
-//@   params b count
-//@   results r
-//@   requires count >= 0
-//@   ensures len(r) == len(b)*count
-//@   ensures implies(len(b) == 1, forall(0, len(r), func(k int) bool { return r[k] == b[0] }))
-
 func forall(lo, hi int, p func(int) bool) bool {
 	for k := lo; k < hi; k++ {
 		if !p(k) {
